@@ -11,7 +11,10 @@ indexing / slicing, transpose, reshape, dot / @, reductions, cholesky / solve, i
 boolean intermediates, astype, where, lax.cond with either branch, stop_gradient,
 concatenate / stack, cumsum).  A composition is in the corpus iff it type-checks (static
 applicability predicate on the intermediate shape, shapes by jax.eval_shape of plain JAX).
-quick: every depth<=1 program + a fixed diagonal of depth-2; thorough: all depth-2.
+quick: every depth<=1 program on the 10 primary roots (one per argument class) + a fixed diagonal of
+depth-2, a thin slice on the 7 secondary combiner roots; thorough: all depth-2 on the primary roots.
+Violation signatures name method, failure, the smallest failing sub-program (root expression or
+single op on a fresh argument of the same shape) and its argument shape class.
 
 For every program f and argument a, eagerly and under jax.jit:
   expectation(f).estimate(*a)                      == f(*a)
@@ -127,7 +130,7 @@ ROOTS = {
 
 def _ops():
     """name -> (applicable(shape, spd), fn).  Every op maps a float array to a float array of
-    rank <= 2 and keeps values O(1..1e3) on the fixed arguments."""
+    rank <= 2 and keeps values finite and below ~1e5 in float32 on the fixed arguments (depth <= 2)."""
     import jax
     import jax.numpy as jnp
 
@@ -166,7 +169,7 @@ def _ops():
 
     def cond_closure(pred):
         def f(x):
-            s = jnp.sum(x * x)
+            s = 0.1 * jnp.sum(x * x)
             p = (s >= 0.0) if pred else (s < 0.0)  # predicate computed from the input
             return jax.lax.cond(p, lambda y: y * 2.0 + s, lambda y: jnp.sin(y) - s, x)
 
@@ -188,7 +191,7 @@ def _ops():
         "rdiv": (anyr, lambda x: 1.5 / (x * x + 1.0)),
         # transcendental
         "sin": (anyr, jnp.sin),
-        "exp": (anyr, jnp.exp),
+        "exp": (anyr, lambda x: jnp.exp(0.5 * x)),
         "tanh": (anyr, jnp.tanh),
         "log1p-square": (anyr, lambda x: jnp.log1p(x * x)),
         # indexing / slicing
